@@ -294,6 +294,45 @@ func genChain(t *rapid.T) (Req, Req) {
 	return gen, val
 }
 
+// genTwin: two TOTP requests for the same secret whose (period, time step)
+// pairs read the same when written one after the other without a separator
+// (period 30 / step 58129306 vs period 305 / step 8129306): the classic
+// ambiguity of a cache or memo key built by concatenation. Each answer is
+// judged on its own by the request model.
+func genTwin(t *rapid.T) (Req, Req) {
+	secret := genSecretStr(t, false)
+	ep := rapid.SampledFrom([]string{"/totp/generate", "/totp/generate", "/totp/validate"}).Draw(t, "twinEp")
+	p1 := rapid.Uint64Range(1, 999).Draw(t, "twinPeriod")
+	step1 := rapid.Uint64Range(10, 99_999_999).Draw(t, "twinStep")
+	ds := fmt.Sprint(step1)
+	for len(ds) < 2 || ds[1] == '0' {
+		step1 += 11
+		ds = fmt.Sprint(step1)
+	}
+	p2 := p1*10 + uint64(ds[0]-'0')
+	var step2 uint64
+	fmt.Sscan(ds[1:], &step2)
+	mk := func(p, step uint64, off uint64) Req {
+		f := &fields{}
+		f.add("secret", jstr(secret))
+		f.add("period", fmt.Sprint(p))
+		f.add("timestamp", fmt.Sprint(step*p+off%p))
+		r := Req{Method: "POST", Path: ep, Class: "good"}
+		if ep == "/totp/validate" {
+			f.add("code", jstr("@@CODE@@"))
+			r.Code = &CodeSpec{}
+		}
+		r.Body = f.String()
+		return r
+	}
+	a := mk(p1, step1, rapid.Uint64Range(0, 998).Draw(t, "twinOffA"))
+	b := mk(p2, step2, rapid.Uint64Range(0, 9989).Draw(t, "twinOffB"))
+	if rapid.Bool().Draw(t, "twinSwap") {
+		return b, a
+	}
+	return a, b
+}
+
 var allPaths = []string{"/totp/generate", "/totp/validate", "/hotp/generate", "/hotp/validate", "/ocra/generate", "/ocra/validate", "/ocra/suites", "/ocra/suite", "/otp/url", "/otp/secret", "/"}
 
 func genAttack(t *rapid.T) Req {
@@ -479,9 +518,9 @@ func GenPlan(t *rapid.T, prop string) *Plan {
 		var e Event
 		e.Conn = rapid.IntRange(0, nConn-1).Draw(t, "conn")
 		e.IP = rapid.IntRange(0, 3).Draw(t, "ip")
-		kw := []int{12, 3, 1, 0, 0, 1, 2, 1, 0, 0, 2, 0}
+		kw := []int{12, 3, 1, 0, 0, 1, 2, 1, 0, 0, 2, 0, 1}
 		if adversarial {
-			kw = []int{4, 3, 2, 1, 1, 1, 1, 1, 1, 12, 1, 1}
+			kw = []int{4, 3, 2, 1, 1, 1, 1, 1, 1, 12, 1, 1, 1}
 		}
 		switch weighted(t, "evKind", kw...) {
 		case 0:
@@ -552,6 +591,10 @@ func GenPlan(t *rapid.T, prop string) *Plan {
 			pr := genGood(t)
 			pr.Close = false
 			e.PReq = &pr
+		case 12:
+			e.Kind = "twin"
+			a, b := genTwin(t)
+			e.Req, e.PReq = &a, &b
 		case 10:
 			e.Kind = "chain"
 			g, v := genChain(t)
